@@ -85,7 +85,9 @@ def judgeLine (prop : String) (line : String) (st : Stats) : IO Stats := do
       let (mx, nested) := nestingOf rtoks
       let mut st := { st with scripts := st.scripts + 1, events := st.events + rtoks.length,
                               maxDepth := max st.maxDepth mx, nested := st.nested + (if nested then 1 else 0) }
-      if rtoks != mtoks then st := { st with fullMismatches := st.fullMismatches + 1 }
+      if rtoks != mtoks then
+        st := { st with fullMismatches := st.fullMismatches + 1 }
+        if st.fullMismatches ≤ 300 then IO.println s!"DRIFT {name} | {script} | {real}"
       if project prop rtoks != project prop mtoks then
         st := { st with mismatches := st.mismatches + 1 }
         IO.println s!"MISMATCH {name} | {script} | model: {model} | real: {real}"
